@@ -160,7 +160,7 @@ class LitGen:
             if self.cxx:
                 ts.append('wchar_t')
             if 'sizeof-struct' in self.excl:
-                ts = [t for t in ts if t != S]
+                ts = [t for t in ts if t not in (S, S + ' *')]
             ts += ['P' if self.cxx else 'struct P'] * 2
             return Node('szt', extra=self.pick(ts), prec=P_UNARY, cat='I')
         names = ['b1', 'c1', 'sc1', 'uc1', 's1', 'us1', 'i1', 'u1', 'l1', 'ul1', 'll1', 'ull1', 'e1', 'f1', 'd1', 'ld1',
